@@ -2,6 +2,7 @@
 // parses back): a programmable Http::Handler behind the real transport loop, response specs, and the
 // client request product built through Experimental::RequestBuilder + the real writeRequest.
 #pragma once
+#include "locale_env.h"
 // the client serialiser is TU-local: compile the shipped source into this harness
 #include <src/client/client.cc>
 
@@ -113,6 +114,7 @@ namespace wc
         bool useMimeArg     = false;
         long fileSize       = -1;  // >= 0: the response is a file of that size, answered with Http::serveFile
         int fileExt         = 0;   // index into file_exts()
+        int locale = 0;               // 1 / 2: a digit-grouping C++ locale is the process-wide one while the response is produced
         std::vector<lp::Answer> plan; // answers of the socket to the successive write calls of the response (default: all accepted)
     };
     struct FileExt
@@ -237,6 +239,7 @@ namespace wc
     inline RspResult run_response(const RspSpec& spec, uint64_t* steps = nullptr)
     {
         RspResult res;
+        vr::ScopedGlobalLocale processLocale(spec.locale);
         auto handler  = std::make_shared<ProgHandler>();
         handler->spec = &spec;
         handler->res  = &res;
